@@ -76,6 +76,14 @@ def g_decoder_tables(out):
         ob(out, 'table::der.decoder#primitive-only-%s' % tname, ok,
            '%s codec by tag / by type supportConstructedForm: %s' % (tname, [c.supportConstructedForm for c in codecs]),
            witness={'input_hex': '2403040141' if tname == 'OctetString' else '230403020001', 'spec': tname}, n=2)
+    # ... and so for every other string type (character strings, useful types): X.690 10.2
+    bad = sorted({type(c).__name__ for m in (dd.TAG_MAP, dd.TYPE_MAP) for c in m.values()
+                  if isinstance(c, (bd.OctetStringPayloadDecoder, bd.BitStringPayloadDecoder))
+                  and c.supportConstructedForm is not False})
+    nstr = len([c for c in dd.TAG_MAP.values() if isinstance(c, (bd.OctetStringPayloadDecoder, bd.BitStringPayloadDecoder))])
+    ob(out, 'table::der.decoder#primitive-only-all-string-types', not bad and nstr >= 16,
+       'string codecs of the DER maps that still accept the constructed form: %s (%d string codecs)' % (bad, nstr),
+       witness={'input_hex': '2c030c0141', 'codecs': bad}, n=nstr)
     # nested elements are decoded by the same SingleItemDecoder (decodeFun is self): every call site of
     # concreteDecoder.valueDecoder / indefLenValueDecoder in SingleItemDecoder.__call__ passes `self`
     tree = parse('pyasn1/codec/ber/decoder.py')
